@@ -22,13 +22,13 @@ SPEC_MODULES = {
     "C01": ["specs.c01_taskgroup"],
     "C02": ["specs.c01_taskgroup"],
     "C07": ["specs.c01_taskgroup"],
-    "C03": ["specs.c04_scope"],
+    "C03": ["specs.c04_scope", "specs.c01_taskgroup"],
     "C05": ["specs.c04_scope"],
     "C04": ["specs.c04_scope"],
     "C06": ["specs.c04_scope"],
     "C08": ["specs.c08_checkpoints"],
-    "C09": ["specs.c09_lock"],
-    "C10": ["specs.c10_semaphore", "specs.c10_limiter"],
+    "C09": ["specs.c09_lock", "specs.c10_adapters"],
+    "C10": ["specs.c10_semaphore", "specs.c10_limiter", "specs.c10_adapters"],
     "C11": ["specs.c11_condition"],
     "C12": ["specs.c12_memory"],
     "C13": ["specs.c12_memory"],
@@ -44,7 +44,7 @@ def _run_unit(arg):
     mod = importlib.import_module(modname)
     cls = mod.UNITS[idx]
     u = cls()
-    res = U.explore(u, prefix=prefix)
+    res = U.explore(u, prefix=prefix, split=tuple(getattr(u, "split", ()) or ()))
     return {
         "unit": res.unit,
         "module": modname,
